@@ -17,6 +17,8 @@ import (
 	goruntime "runtime"
 	"strings"
 	"sync"
+	"sync/atomic"
+	"time"
 
 	"github.com/go-openapi/runtime"
 
@@ -879,7 +881,7 @@ func runStress(c *drv.Ctx, st M, text string, o opts, skip, chunk int) {
 	old := goruntime.GOMAXPROCS(procs)
 	defer goruntime.GOMAXPROCS(old)
 	var mu sync.Mutex
-	parse, other, none, panics := 0, 0, 0, 0
+	var nParse, nOther, nNone, nPanic int64
 	first := ""
 	var wg sync.WaitGroup
 	for g := 0; g < workers; g++ {
@@ -891,46 +893,78 @@ func runStress(c *drv.Ctx, st M, text string, o opts, skip, chunk int) {
 		go func(n int) {
 			defer wg.Done()
 			producer := runtime.CSVProducer(codecOpts(o, skip)...)
-			lp, lo, ln, lpanic := 0, 0, 0, 0
-			lfirst := ""
 			for i := 0; i < n; i++ {
 				func() {
 					defer func() {
 						if r := recover(); r != nil {
-							lpanic++
+							atomic.AddInt64(&nPanic, 1)
 						}
 					}()
 					err := producer.Produce(discard{}, &srcWT{text: []byte(text), chunk: chunk})
 					switch errClass(err) {
 					case "none":
-						ln++
+						atomic.AddInt64(&nNone, 1)
 					case "parse":
-						lp++
+						atomic.AddInt64(&nParse, 1)
 					default:
-						lo++
-						if lfirst == "" {
-							lfirst = err.Error()
+						if atomic.AddInt64(&nOther, 1) == 1 {
+							mu.Lock()
+							first = err.Error()
+							mu.Unlock()
 						}
 					}
 				}()
 			}
-			mu.Lock()
-			parse, other, none, panics = parse+lp, other+lo, none+ln, panics+lpanic
-			if first == "" {
-				first = lfirst
-			}
-			mu.Unlock()
 		}(n)
 	}
-	wg.Wait()
+	// wait for the family; if no call at all returns for a while the workers are stuck: report what has been counted
+	finished := make(chan struct{})
+	go func() { wg.Wait(); close(finished) }()
+	hang := false
+	total := func() int64 {
+		return atomic.LoadInt64(&nParse) + atomic.LoadInt64(&nOther) + atomic.LoadInt64(&nNone) + atomic.LoadInt64(&nPanic)
+	}
+	last, idle := int64(-1), 0
+wait:
+	for {
+		select {
+		case <-finished:
+			break wait
+		case <-time.After(time.Second):
+			if t := total(); t == last {
+				idle++
+				if time.Duration(idle)*time.Second >= callTimeout() {
+					hang = true
+					hangsSeen++
+					break wait
+				}
+			} else {
+				last, idle = t, 0
+			}
+		}
+	}
+	parse, other, none, panics := int(atomic.LoadInt64(&nParse)), int(atomic.LoadInt64(&nOther)), int(atomic.LoadInt64(&nNone)), int(atomic.LoadInt64(&nPanic))
+	mu.Lock()
+	defer mu.Unlock()
 	ascii := make([]byte, 0, len(first))
 	for i := 0; i < len(first) && i < 120; i++ {
 		if first[i] >= 0x20 && first[i] < 0x7f && first[i] != '"' && first[i] != '\\' {
 			ascii = append(ascii, first[i])
 		}
 	}
-	c.W.Event("stress", M{"calls": parse + other + none + panics, "parse": parse, "other": other, "none": none,
+	c.W.Event("stress", M{"hang": hang, "calls": parse + other + none + panics, "parse": parse, "other": other, "none": none,
 		"first_other": string(ascii), "panic": panics > 0})
+}
+
+// hangsSeen: calls that did not return so far. The first one is waited for generously; once one has been seen the
+// verdict of the run is certain and the remaining calls get a short deadline (harness economy, not part of the oracle).
+var hangsSeen int
+
+func callTimeout() time.Duration {
+	if hangsSeen > 0 {
+		return time.Second
+	}
+	return 20 * time.Second
 }
 
 // runCall performs one call on the real codec and logs what it observably did.
@@ -1093,22 +1127,36 @@ func runCall(c *drv.Ctx, consumer runtime.Consumer, producer runtime.Producer, k
 			}
 		}
 	}
-	panicked := func() (p bool) {
-		defer func() {
-			if r := recover(); r != nil {
-				p = true
-			}
+	// the call runs under a watchdog: a call that does not return is an observation too
+	done := make(chan bool, 1)
+	go func() {
+		done <- func() (p bool) {
+			defer func() {
+				if r := recover(); r != nil {
+					p = true
+				}
+			}()
+			run()
+			return false
 		}()
-		run()
-		return false
 	}()
-	if !panicked && after != nil {
+	panicked, hang := false, false
+	select {
+	case panicked = <-done:
+	case <-time.After(callTimeout()):
+		hang = true // the goroutine is abandoned; its destination is not looked at any more
+		hangsSeen++
+	}
+	if !panicked && !hang && after != nil {
 		after()
 	}
-	ec := errClass(err)
+	ec := "none"
+	if !hang {
+		ec = errClass(err)
+	}
 	if panicked {
 		ec = "none"
 	}
-	c.W.Event("csv", M{"i": idx, "err": ec, "delivered": tableJSON(delivered), "alias": aliasW || aliasA,
+	c.W.Event("csv", M{"hang": hang, "i": idx, "err": ec, "delivered": tableJSON(delivered), "alias": aliasW || aliasA,
 		"alias_write": aliasW, "alias_append": aliasA, "retained": retained, "rp": rp, "closes": closes, "scloses": scloses, "panic": panicked})
 }
